@@ -285,6 +285,49 @@ def run(prog, rep, tier, repo):
         rep.viol('normaliser-agree', key, 'the factorial k! is formed inconsistently: %s. k! = Gamma(k + 1); Gamma(k) is (k-1)!, which makes the mass function wrong by a factor k' % (
             {('gamma(k + %g)' % o if o else 'gamma(k)'): sorted(set(short(x) for x in v)) for o, v in forms.items()}), site_of(pdb.bodies[kp]))
     rep.floor('normaliser-agree', 1, 'Poisson')
+
+    # ------------------------------------------------------------------ D10 agreement with the textbook table (identity testing of closed forms)
+    from ..formula import TABLE, compare
+    eng2 = ElemEngine(prog, ints=True)
+    for d, spec in sorted(TABLE.items()):
+        path = DS + d
+        adt = pdb.adts.get(path)
+        if adt is None:
+            rep.viol('textbook', 'textbook:%s' % d, 'distribution disappeared')
+            continue
+        fnames = [fl['name'] for fl in adt['variants'][0]['fields']]
+        disc = spec.get('discrete', False)
+        for meth, trait in ((('pmf', 'Discrete') if disc else ('pdf', 'Continuous')), ('mean', 'Mean'), ('var', 'Variance')):
+            k = '<%s as %s%s>::%s' % (path, DS, trait, meth)
+            key = 'textbook:%s::%s' % (d.split('::')[1], meth)
+            if k not in pdb.bodies:
+                rep.undecided('textbook', key, 'method not found', proof=False)
+                continue
+            args = {1: S} if meth in ('mean', 'var') else {1: S, 2: X}
+            ret, _ = eng2.result_of(k, args)
+            if isinstance(ret, tuple) or has_top(ret):
+                rep.undecided('textbook', key, 'closed form not extracted: %s' % (sorted(top_reasons(ret))[:2] if not isinstance(ret, tuple) else 'tuple'), proof=False)
+                continue
+            alts = sorted(ret, key=repr)
+            points = []
+            for pn in spec['grid']:
+                pidx = {i: pn[nm] for i, nm in enumerate(fnames) if nm in pn}
+                if meth in ('mean', 'var'):
+                    points.append((pidx, pn, None))
+                else:
+                    for xv in spec['xs'](pn):
+                        points.append((pidx, pn, xv))
+            ref = spec['pdf'] if meth in ('pdf', 'pmf') else spec[meth]
+            st, info = compare(alts, ref, points)
+            if st == 'ok':
+                rep.ok('textbook', key, '%s agrees with the textbook formula at %d parameter/argument points: %s' % (meth, info, show_expr(ret)[:100]))
+            elif st == 'viol':
+                rep.viol('textbook', key, '%s::%s(%s) is %s where the textbook formula gives %.12g (parameters %s); extracted closed form %s' % (
+                    d.split('::')[1], meth, '' if info['x'] is None else info['x'], '%.12g' % info['code'] if isinstance(info['code'], float) else info['code'],
+                    info['textbook'], info['params'], show_expr(ret)[:160]), site_of(pdb.bodies[k]))
+            else:
+                rep.undecided('textbook', key, info, proof=False)
+    rep.floor('textbook', 36, '13 distributions x (pdf|pmf, mean, var)')
     for kk in eng.visited:
         rep.touch(kk)
     rep.assumptions.append('no cancellation invisible to the scale algebra (e.g. exp(ln x)) in the analysed closed forms')
